@@ -68,6 +68,7 @@ class Prop:
 
 
 _PRISTINE = {}
+_PRISTINE_X = {}
 
 
 def reset_globals():
@@ -82,6 +83,12 @@ def reset_globals():
         for k, v in vars(global_callback).items():
             if k.startswith("_container_") and isinstance(v, (list, set)):
                 _PRISTINE[k] = list(v)
+    from spydrnet.global_state import global_service
+    if "__lookups__" not in _PRISTINE_X:
+        _PRISTINE_X["__lookups__"] = dict(global_service._registered_lookups)
+    if global_service._registered_lookups != _PRISTINE_X["__lookups__"]:
+        global_service._registered_lookups.clear()
+        global_service._registered_lookups.update(_PRISTINE_X["__lookups__"])
     for k, v in _PRISTINE.items():
         cur = getattr(global_callback, k)
         if list(cur) != v:
